@@ -25,6 +25,10 @@
 // A documented vector must be accepted whatever the clock reads.
 // Applied verbosity: -vv is judged differentially - the same vector with every -vv replaced by -v, same registry,
 // same clock, must print strictly less on the console ("print internal information during test run").
+// Applied colour: -c ("colorize output, print green if OK, or red if failed") is judged on every result line ("OK (" /
+// "Errors (") of whichever console stream the output kind owns - the plain console, the console next to the junit files
+// under -v / -vv, the teamcity console; the format options x output kind x outcome (passing / failing probes) product is
+// enumerated in its own section. Without -c no escape sequence may be printed.
 #include "verif.h"
 #include <climits>
 #include <string>
@@ -204,26 +208,26 @@ static bool ref_any(const std::vector<RefFilter>& fs, const std::string& s) {
 }
 
 // ================================================================ probe registry and seams
-struct ProbeSpec { std::string group, name; bool ignored; };
+struct ProbeSpec { std::string group, name; bool ignored; bool fails = false; };     // fails: the body records its execution, then fails a check
 static std::vector<int>* g_exec = nullptr;
 
 class ProbeTest : public Utest {
 public:
-    int id_;
-    explicit ProbeTest(int id) : id_(id) {}
-    void testBody() CPPUTEST_OVERRIDE { if (g_exec) g_exec->push_back(id_); }
+    int id_; bool fails_;
+    ProbeTest(int id, bool fails) : id_(id), fails_(fails) {}
+    void testBody() CPPUTEST_OVERRIDE { if (g_exec) g_exec->push_back(id_); if (fails_) FAIL("probe failure"); }
 };
 class ProbeShell : public UtestShell {
 public:
-    int id_;
-    ProbeShell(const char* g, const char* n, const char* f, size_t l, int id) : UtestShell(g, n, f, l), id_(id) {}
-    Utest* createTest() CPPUTEST_OVERRIDE { return new ProbeTest(id_); }
+    int id_; bool fails_;
+    ProbeShell(const char* g, const char* n, const char* f, size_t l, int id, bool fails) : UtestShell(g, n, f, l), id_(id), fails_(fails) {}
+    Utest* createTest() CPPUTEST_OVERRIDE { return new ProbeTest(id_, fails_); }
 };
 class ProbeIgnoredShell : public IgnoredUtestShell {
 public:
-    int id_;
-    ProbeIgnoredShell(const char* g, const char* n, const char* f, size_t l, int id) : IgnoredUtestShell(g, n, f, l), id_(id) {}
-    Utest* createTest() CPPUTEST_OVERRIDE { return new ProbeTest(id_); }
+    int id_; bool fails_;
+    ProbeIgnoredShell(const char* g, const char* n, const char* f, size_t l, int id, bool fails) : IgnoredUtestShell(g, n, f, l), id_(id), fails_(fails) {}
+    Utest* createTest() CPPUTEST_OVERRIDE { return new ProbeTest(id_, fails_); }
 };
 
 static std::string* g_console = nullptr; static std::string* g_filedata = nullptr; static std::vector<std::string>* g_opened = nullptr;
@@ -304,7 +308,7 @@ static Clock gen_clock(vf::Rng& r) {
 static std::string join_args(const Args& a) { std::string s; for (const std::string& x : a) { s += x; s += '\x1f'; } return s; }
 static std::string args_json(const Args& a) { std::vector<std::string> v; for (const std::string& x : a) v.push_back(vf::jstr(x)); return vf::jarr(v); }
 static std::string reg_json(const std::vector<ProbeSpec>& r) {
-    std::vector<std::string> v; for (const ProbeSpec& p : r) v.push_back(vf::jstr((p.ignored ? "!" : "") + p.group + "." + p.name)); return vf::jarr(v);
+    std::vector<std::string> v; for (const ProbeSpec& p : r) v.push_back(vf::jstr(std::string(p.ignored ? "!" : "") + (p.fails ? "FAILS:" : "") + p.group + "." + p.name)); return vf::jarr(v);
 }
 static std::string ids_str(const std::vector<int>& v) { std::string s; for (int x : v) { if (!s.empty()) s += ","; s += std::to_string(x); } return "[" + s + "]"; }
 static bool contains(const std::string& hay, const std::string& needle) { return hay.find(needle) != std::string::npos; }
@@ -370,8 +374,8 @@ static void run_probe(const RawArgv& raw, const std::vector<ProbeSpec>& reg, Run
     {
         TestRegistry registry;
         for (size_t i = 0; i < reg.size(); i++) {
-            UtestShell* s = reg[i].ignored ? (UtestShell*) new ProbeIgnoredShell(reg[i].group.c_str(), reg[i].name.c_str(), "probe_file.cpp", 100 + i, (int) i)
-                                           : (UtestShell*) new ProbeShell(reg[i].group.c_str(), reg[i].name.c_str(), "probe_file.cpp", 100 + i, (int) i);
+            UtestShell* s = reg[i].ignored ? (UtestShell*) new ProbeIgnoredShell(reg[i].group.c_str(), reg[i].name.c_str(), "probe_file.cpp", 100 + i, (int) i, reg[i].fails)
+                                           : (UtestShell*) new ProbeShell(reg[i].group.c_str(), reg[i].name.c_str(), "probe_file.cpp", 100 + i, (int) i, reg[i].fails);
             shells.push_back(s); registry.addTest(s);
         }
         for (UtestShell* t = registry.getFirstTest(); t; t = t->getNext()) for (size_t i = 0; i < shells.size(); i++) if (shells[i] == t) o.listOrder.push_back((int) i);   // ids in the order of the registry's list
@@ -388,6 +392,32 @@ static void run_probe(const RawArgv& raw, const std::vector<ProbeSpec>& reg, Run
     }
     o.sepcalls = g_sepcalls; o.fcloses = g_fclose;
     for (UtestShell* s : shells) delete s;
+}
+
+// ================================================================ the result line(s) of a console text and their colour
+// "-c colorize output, print green if OK, or red if failed": the result line of a run starts with "OK (" or "Errors (".
+// A line is scanned for the escape sequences (ESC [ parameters final-byte) in front of its first other character; green = an SGR
+// sequence with parameter 32 or 92, red = 31 or 91 (the ANSI codes of the two colours the help text names).
+struct ResultLine { bool ok; bool anyEscape, green, red; };
+static std::vector<ResultLine> scan_result_lines(const std::string& console) {
+    std::vector<ResultLine> out;
+    for (const std::string& line : split_ws(console, true)) {
+        size_t p = 0; bool esc = false, green = false, red = false;
+        while (p + 1 < line.size() && line[p] == '\033' && line[p + 1] == '[') {
+            size_t q = p + 2; std::string params;
+            while (q < line.size() && !(line[q] >= 0x40 && line[q] <= 0x7e)) params += line[q++];
+            if (q >= line.size()) break;
+            esc = true;
+            if (line[q] == 'm') {
+                std::string cur; params += ';';
+                for (char ch : params) { if (ch == ';') { if (cur == "32" || cur == "92") green = true; if (cur == "31" || cur == "91") red = true; cur.clear(); } else cur += ch; }
+            }
+            p = q + 1;
+        }
+        bool isOk = line.compare(p, 4, "OK (") == 0, isErr = line.compare(p, 8, "Errors (") == 0;
+        if (isOk || isErr) out.push_back(ResultLine{ isOk, esc, green, red });
+    }
+    return out;
 }
 
 // ================================================================ the judge
@@ -653,8 +683,39 @@ static void judge(vf::Ctx& c, const Args& args, const std::vector<ProbeSpec>& re
                             c.count(contains(console, "before runTest") ? "very_verbose_internal_info_seen" : "very_verbose_internal_info_not_seen");
                         }
                     }
+                    // colour as applied: "-c colorize output, print green if OK, or red if failed". Judged on every result line the
+                    // console shows, whichever output kind put it there: the plain console, the console that accompanies the junit
+                    // files under -v / -vv, the teamcity console. Without -c no escape sequence may appear (all probe names, package
+                    // names and filter values of a documented vector are identifiers).
+                    {
+                        static const char* WHERE[] = { "", ":console-next-to-junit-files", ":teamcity-console" };
+                        static const char* WNAME[] = { "console", "junit_composite_console", "teamcity_console" };
+                        const std::string where = WHERE[expKindSingle];
+                        std::vector<ResultLine> rl = scan_result_lines(console);
+                        bool anyFailing = false; for (int id : once) if (reg[(size_t) id].fails) anyFailing = true;
+                        if (R.color) {
+                            c.count("color_output_checked");
+                            if (expKindSingle == 0 && !contains(console, "\033[")) c.violation("apply:color-not-applied", "no ANSI colour sequence in the console output");
+                            else for (const ResultLine& l : rl) {
+                                const std::string what = std::string("result line \"") + (l.ok ? "OK (" : "Errors (") + "...\" on the " + WNAME[expKindSingle];
+                                if (!l.anyEscape) { c.violation("apply:color-not-applied" + where, "-c given, but the " + what + " carries no escape sequence"); break; }
+                                if (l.ok && !l.green) { c.violation("apply:color-wrong:ok-line-not-green" + where, "-c given, the " + what + " is not switched to green (SGR 32/92)"); break; }
+                                if (!l.ok && !l.red) { c.violation("apply:color-wrong:errors-line-not-red" + where, "-c given, the " + what + " is not switched to red (SGR 31/91)"); break; }
+                            }
+                            if (rl.empty()) c.count(std::string("color_given_no_result_line_on_") + WNAME[expKindSingle]);
+                            else {
+                                c.count(std::string("color_result_lines_checked_") + WNAME[expKindSingle], rl.size());
+                                for (const ResultLine& l : rl) c.count(l.ok ? "color_ok_lines_checked_green" : anyFailing ? "color_errors_lines_checked_red_failed_test" : "color_errors_lines_checked_red_ran_nothing");
+                                if ((R.verbose || R.veryVerbose)) c.count(std::string("color_with_verbosity_checked_") + WNAME[expKindSingle]);
+                                if (contains(console, "\033[m")) c.count("color_reset_seen");
+                            }
+                            if (contains(filedata, "\033")) c.count("color_escape_in_junit_file_not_judged");
+                        } else {
+                            if (contains(console, "\033")) c.violation("apply:color-without-c" + where, "-c not given, but the " + std::string(WNAME[expKindSingle]) + " output contains an escape sequence");
+                            c.count("no_color_output_checked"); if (!rl.empty()) c.count(std::string("no_color_result_lines_seen_") + WNAME[expKindSingle], rl.size());
+                        }
+                    }
                     if (expKindSingle == 0) {
-                        if (R.color) { if (!contains(console, "\033[")) c.violation("apply:color-not-applied", "no ANSI colour sequence in the console output"); c.count("color_output_checked"); }
                         if (realRepeat > 1 && !contains(console, "Test run " + std::to_string(realRepeat) + " of " + std::to_string(realRepeat))) c.count("repeat_banner_not_seen");
                     }
                 }
@@ -828,6 +889,41 @@ static void init_oseq() {
 }
 static void sec_oseq(vf::Ctx& c) { judge(c, g_oseq[(size_t) c.idx], fixed_registry(), CLS_MEANING); }
 
+// ---------------------------------------------------------------- finite: output format options x output kind x outcome of the run
+// every subset of the format options -c -v -vv (both orders) x every output kind (none given, each kind word in attached and
+// separated form, in front of or behind the format options) x a context that shapes the run (filter, nothing selected, repeat,
+// package, separate process, run-ignored, reverse+shuffle) x the outcome (every probe passes / some probes fail a check).
+// Every output kind owns a console stream under some format options (junit: only next to -v / -vv); the applied format
+// (test names, internal information, colour of the result line: green if OK, red if failed) is judged on whichever exists.
+struct FmtCase { Args args; bool failing; };
+static std::vector<FmtCase> g_fmt;
+static std::vector<ProbeSpec> failing_registry() {
+    std::vector<ProbeSpec> r = fixed_registry();
+    r[1].fails = true; r[4].fails = true; r[8].fails = true;      // Net.close, Disk.open, and the ignored Disk.close (runs only under -ri)
+    return r;
+}
+static void init_fmt() {
+    static const char* FMT[] = { "-c", "-v", "-vv" };
+    static const char* K[] = { "normal", "eclipse", "junit", "teamcity" };
+    const Args CTX[] = { {}, { "-g", "Net" }, { "-sgnosuch" }, { "-r2" }, { "-kpkg" }, { "-p" }, { "-ri" }, { "-b", "-s7" }, { "-n", "close", "-k", "pkg" } };
+    std::set<std::string> seen;
+    for (int sub = 0; sub < 8; sub++) for (int rev = 0; rev < 2; rev++) for (int kind = 0; kind < 9; kind++) for (int front = 0; front < 2; front++)
+        for (const Args& ctx : CTX) for (int failing = 0; failing < 2; failing++) {
+            Args f; for (int b = 0; b < 3; b++) if (sub & (1 << b)) f.push_back(FMT[b]);
+            if (rev) std::reverse(f.begin(), f.end());
+            Args o; if (kind >= 5) { o.push_back("-o"); o.push_back(K[kind - 5]); } else if (kind >= 1) o.push_back(std::string("-o") + K[kind - 1]);
+            Args a;
+            if (front) { a = o; a.insert(a.end(), f.begin(), f.end()); } else { a = f; a.insert(a.end(), o.begin(), o.end()); }
+            a.insert(a.end(), ctx.begin(), ctx.end());
+            if (seen.insert(join_args(a) + (failing ? "F" : "P")).second) g_fmt.push_back(FmtCase{ a, failing != 0 });
+        }
+}
+static void sec_fmt(vf::Ctx& c) {
+    const FmtCase& f = g_fmt[(size_t) c.idx];
+    c.count(f.failing ? "format_x_kind_cases_with_failing_probes" : "format_x_kind_cases_all_passing");
+    judge(c, f.args, f.failing ? failing_registry() : fixed_registry(), CLS_MEANING);
+}
+
 // ---------------------------------------------------------------- finite: every truncation of every argument of every form
 static std::vector<Args> g_trunc;
 static void init_trunc() {
@@ -921,13 +1017,14 @@ static void sec_hostile_mut(vf::Ctx& c) {
 }
 
 int main(int argc, char** argv) {
-    init_forms(); init_trunc(); init_clock(); init_oseq();
+    init_forms(); init_trunc(); init_clock(); init_oseq(); init_fmt();
     uint64_t nf = g_forms.size(), nc = (uint64_t) g_clockvecs.size() * 2 * g_lattice.size();
     std::vector<vf::Section> S = {
         { "option_form_pairs", nf * (nf + 1), nf * (nf + 1), sec_form_pairs, true },
         { "truncations_and_malformed", g_trunc.size(), g_trunc.size(), sec_trunc, true },
         { "output_kind_option_sequences", g_oseq.size(), g_oseq.size(), sec_oseq, true },
         { "clock_lattice_x_clock_reading_vectors", nc, nc, sec_clock_lattice, true },
+        { "output_format_x_output_kind_x_outcome", g_fmt.size(), g_fmt.size(), sec_fmt, true },
         { "meaning_random", 60000, 700000, sec_meaning, false },
         { "filters_random", 20000, 300000, sec_filters, false },
         { "hostile_bytes", 30000, 400000, sec_hostile_bytes, false },
